@@ -4,6 +4,7 @@ From Flocq Require Import Core IEEE754.BinarySingleNaN.
 From KV Require Import Base.IEEE Base.Outcome C01.Model C01.ProofsOut C01.ProofsNan C01.ProofsSteps
      C01.ProofsRender C01.ProofsLoops C01.ProofsBridge C01.ProofsImports C01.ProofsReuse.
 From KV Require C02.Model C04.StaticSound C05.Model C05.ProofsSpeed C08.Model C08.Props C08.Run.
+From KV Require C04.Transport C04.TransportSeek C04.ProofsTransport C04.ProofsSeek C04.ProofsSound.
 Import ListNotations.
 
 Theorem clamp_of_non_nan_is_finite_unit :
@@ -192,6 +193,62 @@ Theorem loops_static_sound_carry_is_scalar_loop :
     C04.StaticSound.carry A azero fuel fl s = Ok s' ->
     exists n, sub1_loop fl (C04.StaticSound.s_fpos s) = Ok (n, C04.StaticSound.s_fpos s').
 Proof. exact carry_ok_count. Qed.
+
+(** * [Transport::seek_to] (C04's model): since the repair of F40 it has no loop.  For EVERY [usize]
+    target and every well-formed transport it returns (there is no fuel in the term), keeps the
+    invariant, and lands on the wrapped position — so the cost of a seek no longer depends on the
+    target: `seek_to(1e300)` / `seek_by(1e300)` on a looping sound return like any other. *)
+Theorem loops_terminate_transport_seek_any_target :
+  forall (N B : Z), (N <= B)%Z -> (B < u64_max)%Z ->
+  forall (t : C04.Transport.transport) (i : Z),
+    C04.ProofsTransport.wf_transport B t -> (0 <= i <= u64_max)%Z ->
+    exists t', C04.TransportSeek.transport_seek_to t i N = Ok t' /\ C04.ProofsTransport.wf_transport B t' /\
+      C04.Transport.t_loop t' = C04.Transport.t_loop t /\
+      match C04.Transport.t_loop t with
+      | Some (ls, le) =>
+          (C04.Transport.t_pos t < i -> C04.Transport.t_pos t' < le)%Z /\
+          (i <= C04.Transport.t_pos t -> ls <= C04.Transport.t_pos t')%Z /\
+          (ls <= i < le -> C04.Transport.t_pos t' = i)%Z /\
+          ((C04.Transport.t_pos t' - i) mod (le - ls) = 0)%Z
+      | None => C04.Transport.t_pos t' = i
+      end /\
+      C04.Transport.t_playing t' = (C04.Transport.t_pos t' <? N)%Z.
+Proof. exact C04.ProofsSeek.seek_total. Qed.
+(** the same for the static sound's [seek_to_index] (the seek, then one push into the resampler
+    window): every [usize] index, on every sound satisfying C04's invariant *)
+Theorem loops_terminate_static_sound_seek_any_index :
+  forall (T A : Type) (azero : A) (fuel : nat) (B : Z) (s : C04.StaticSound.ssound T A) (i : Z),
+    C04.ProofsSound.SInv A fuel B s -> (0 <= i <= u64_max)%Z ->
+    exists s', C04.StaticSound.seek_to_index A azero s i = Ok s' /\ C04.ProofsSound.SInv A fuel B s'.
+Proof. exact (@C04.ProofsSound.seek_to_index_safe). Qed.
+(** F40, REGRESSION: the loop it replaced (counter-model: [C04.Transport.transport_seek_to], with
+    fuel) cost [(p - le) / (le - ls) + 1] iterations: with no more fuel than that it hangs, with more
+    it returns what the repaired seek returns at once ... *)
+Theorem loops_transport_seek_old_loop_cost :
+  forall (fuel : nat) (t : C04.Transport.transport) (p N ls le : Z),
+    C04.Transport.t_loop t = Some (ls, le) -> (0 <= ls)%Z -> (ls < le)%Z -> (le <= u64_max)%Z ->
+    (0 <= C04.Transport.t_pos t)%Z -> (C04.Transport.t_pos t < p)%Z -> (le <= p)%Z -> (p <= u64_max)%Z ->
+    ((Z.of_nat fuel <= (p - le) / (le - ls) + 1)%Z -> C04.Transport.transport_seek_to fuel t p N = Hang) /\
+    (((p - le) / (le - ls) + 1 < Z.of_nat fuel)%Z ->
+       C04.Transport.transport_seek_to fuel t p N =
+         Ok {| C04.Transport.t_pos := (ls + (p - ls) mod (le - ls))%Z; C04.Transport.t_loop := C04.Transport.t_loop t;
+               C04.Transport.t_playing := if (ls + (p - ls) mod (le - ls) >=? N)%Z then false else C04.Transport.t_playing t |}) /\
+    C04.TransportSeek.transport_seek_to t p N =
+      Ok {| C04.Transport.t_pos := (ls + (p - ls) mod (le - ls))%Z; C04.Transport.t_loop := C04.Transport.t_loop t;
+            C04.Transport.t_playing := (ls + (p - ls) mod (le - ls) <? N)%Z |}.
+Proof. exact C04.ProofsSeek.seek_old_cost. Qed.
+(** ... the witness `seek_to(1e300)` (the index saturates to usize::MAX) on a loop of 4 frames: 2^62 - 1
+    subtractions; no fuel below 2^62 let the old seek return *)
+Theorem loops_transport_seek_old_loop_witness :
+  forall (fuel : nat) (N : Z),
+    (Z.of_nat fuel < 2 ^ 62)%Z ->
+    C04.Transport.transport_seek_to fuel
+      {| C04.Transport.t_pos := 3; C04.Transport.t_loop := Some (0, 4)%Z; C04.Transport.t_playing := true |} u64_max N = Hang /\
+    C04.TransportSeek.transport_seek_to
+      {| C04.Transport.t_pos := 3; C04.Transport.t_loop := Some (0, 4)%Z; C04.Transport.t_playing := true |} u64_max N =
+      Ok {| C04.Transport.t_pos := 3; C04.Transport.t_loop := Some (0, 4)%Z;
+            C04.Transport.t_playing := (3 <? N)%Z |}.
+Proof. exact C04.ProofsSeek.seek_old_cost_witness. Qed.
 
 (** * no_nan_stage: where a NaN can be born in the gain stages (binary32) *)
 (** one product: NaN exactly for a NaN factor or inf * 0; one sum: NaN factor or inf - inf *)
